@@ -112,6 +112,60 @@ CHECKS["C09"] = dict(
     technique="regex-language obligations (z3 ReSort) on the real pattern strings + E1 contract on next_statement",
 )
 
+CHECKS["C04"] = dict(
+    engine="pegir+pyvc", category="proof",
+    text="Every action of every rule reachable from the entry points is type-checked against the ASDL of the running CPython by an abstract interpreter "
+         "over the extracted IR (rule result types as least fixpoint): keywords are fields, required fields and position attributes supplied, lists where "
+         "`*`, None only where `?`, node categories, Store/Del/Load contexts; alternatives using LOCATIONS consume a token first. compile() on every "
+         "tree of a Python+xonsh pool (constructs x contexts) is the bounded stand-in that also validates our reading of PyAST_Validate.",
+    design_ref="DESIGN.md 5/C04, 3.3",
+    note="assumed: transcription of compile()'s structural rules; declared result types of subheader builders; fields whose value has unknown abstract "
+         "type are counted unchecked; the semantic-rejection clause only via stand-in.",
+    technique="typing contracts type(R) on the generated parser's IR (abstract interpretation, own checker)",
+)
+CHECKS["C11"] = dict(
+    engine="pyvc+pegir", category="proof",
+    text="wf_error (message, file name, line >= 1, 1-based column, end >= start, 6-element args) is proved as postcondition of _build_syntax_error and "
+         "of every raise_* helper, expect_forced, make_syntax_error, check_version from their real bodies (z3), with token well-formedness preserved by "
+         "Tokenizer.peek; get_lines never raises; every explicit raise site on the parse path is enumerated; raise_* call sites in the generated parser "
+         "pass tokens or positioned nodes. Field-by-field validation of every error raised on a mutation pool is the bounded stand-in.",
+    design_ref="DESIGN.md 5/C11",
+    note="assumed: token positions well-formed for the raw stream (contract of _tokenize), ordered ranges at known_range/starting_from call sites; "
+         "one known finding (errors from ast.literal_eval carry token-relative coordinates).",
+    technique="E1 postconditions on error constructors (z3) + raise-site enumeration",
+)
+CHECKS["C12"] = dict(
+    engine="frames+pyvc", category="proof",
+    text="The two entry points are shown (structural comparison of their real bodies) to run the same pipeline with the same options, differing only in "
+         "line source and path/filename; every open() passes encoding='utf-8' (ambient-read obligation); get_lines is proved total in both modes and "
+         "peek caches a line for every token pulled. Child interpreters under three locale/UTF-8-mode environments x newline conventions x "
+         "ASCII/non-ASCII x valid/invalid contents are the bounded stand-in.",
+    design_ref="DESIGN.md 5/C12",
+    note="assumed: universal-newline translation of open() vs StringIO (CRLF/CR), tokenizer reads only readline (C13), PEP 263 cookies out of scope.",
+    technique="relational frame obligations on the entry points + E1 contracts on get_lines/peek",
+)
+CHECKS["C13"] = dict(
+    engine="frames", category="proof",
+    text="Frame/ownership obligations for all ~470 functions and methods on the parse path (hand-written modules and every generated method): no store or "
+         "mutating call on module-level objects or class attributes, no global/nonlocal, no ambient nondeterminism, memoising decorators only on the "
+         "audited _compile; the hash-order iteration of the prefix set is shown order-independent. Non-interference (determinism, history freedom, "
+         "thread safety) follows by a standard argument; permuted histories and 8 threads are the bounded stand-in.",
+    design_ref="DESIGN.md 5/C13, 3.6",
+    note="syntactic effect analysis (blind to aliasing through containers); lru_cache/re cache transparency assumed; corollary argued in prose.",
+    technique="frame (modifies) contracts checked by syntactic effect analysis of the real sources",
+)
+CHECKS["C14"] = dict(
+    engine="pegir+frames", category="proof",
+    text="Lemmas proved on the real parser/runtime: macro-flag protocol (each alternative that sets a flag ends in the builder that clears it; flags and "
+         "_path_token written nowhere else), `fstring` only reachable through `strings`/concatenate_strings, L4 barrier (no expression-level rule consumes "
+         "NEWLINE/INDENT/DEDENT/ENDMARKER), continuation keywords not in first(statement), in_recursive_rule restored (E1). Pairs and triples from a "
+         "statement pool are the bounded stand-in for the composed statement.",
+    design_ref="DESIGN.md 5/C14",
+    note="assumed: tokenizer neutrality at top-level NEWLINE; that concatenate_strings clears _path_token on every path is not proved (stand-in only); "
+         "composition argued in prose; one known finding (with-macro followed by blank/comment line).",
+    technique="protocol/frame/barrier obligations on the generated parser's IR",
+)
+
 NOT_APPLICABLE_REASON = "not built yet (DESIGN.md section 8 build order); no claim is made"
 
 manifest = {
@@ -131,6 +185,10 @@ manifest = {
          "kind_free_text": "real regex strings -> SMT regular expressions (re._parser + z3 ReSort): equality/inclusion/disjointness/epsilon-freeness"},
         {"name": "gramref", "path": "engine/gramref.py, spec/ref/python311.gram", "serves_properties": ["C01", "C02"],
          "kind_free_text": "refinement of CPython's own grammar rule by rule incl. simple actions"},
+        {"name": "frames", "path": "engine/frames.py", "serves_properties": ["C12", "C13", "C14"],
+         "kind_free_text": "syntactic effect / ownership analysis of the real sources"},
+        {"name": "pegtypes", "path": "engine/pegtypes.py", "serves_properties": ["C04", "C11"],
+         "kind_free_text": "abstract interpretation of grammar actions against the running CPython's ASDL"},
         {"name": "pyvc", "path": "engine/pyvc.py, engine/pyexpr.py, engine/pyexec.py, engine/smt.py, contracts/*.py", "serves_properties": ["C01", "C02", "C03", "C08", "C09", "C15", "C17"],
          "kind_free_text": "VC generator: symbolic execution of the real function bodies (ast) against sidecar contracts, z3/cvc5 back ends"},
     ],
